@@ -556,7 +556,7 @@ func ruleNarrowOnlyKey(p *Prog, r *Result) {
 				if !isC || c != keyKW {
 					continue
 				}
-				if derivesFrom(a.X, func(x ssa.Value) bool { return isFieldLoad(x, "FieldExpr", "Field") }) {
+				if derivesFrom(a.X, func(x ssa.Value) bool { return isFieldLoad(x, "FieldExpr", "Field") }) || p.derivesFromField(a.X, "FieldExpr", "Field", traceOpts{IntoReturns: true, MaxDepth: 3}) {
 					guarded = true
 				}
 			}
